@@ -14,7 +14,7 @@
 
 From Coq Require Import String List NArith Bool Arith.
 From Nexus Require Import Conc.SkelTypes Conc.Machine Conc.MachineFacts Conc.Shutdown
-  Conc.ShutdownWitness Conc.ShutdownProofs Conc.ShutdownLock Conc.ShutdownFlag Conc.ShutdownWg Conc.ShutdownCloser Conc.ShutdownTimers Conc.Skeleton Conc.SkelObligationsC06 gen.GenSkeleton.
+  Conc.ShutdownWitness Conc.ShutdownProofs Conc.ShutdownLock Conc.ShutdownFlag Conc.ShutdownWg Conc.ShutdownCloser Conc.ShutdownTimers Conc.ShutdownServers Conc.Skeleton Conc.SkelObligationsC06 gen.GenSkeleton.
 Import ListNotations.
 
 (** ** Tie to the source, re-established on every run *)
@@ -119,6 +119,21 @@ Theorem call_timers_counted :
     wgs s WTimers = count tlive (procs s).
 Proof. intros scr K p s Hr Ho. exact (proj2 (wg_timers_invariant scr K p s Hr Ho)). Qed.
 Print Assumptions call_timers_counted.
+
+
+(** The meta session is ended and the action channels of dealer, broker and
+    realm are closed only when no session handler and no attach in progress is
+    alive, and once one of them is closed none appears any more — so no session
+    handler (PUBLISH, CALL, REGISTER, onLeave ...) can ever send on a closed
+    action channel (the session-handler part of close_no_panic). *)
+Theorem close_no_panic_handlers_vs_servers :
+  forall (scr : nat -> list msg * bool) (K : nat) (p : params) (s : sstate) (c : ch),
+    sreach all_fixed scr K (init p) s -> outcome s = None ->
+    late_closed c = true -> c_closed (chans s c) = true ->
+    (forall l, In l (procs s) -> live l = false) /\
+    (forall l, In l (procs s) -> joining l = false).
+Proof. exact ShutdownServers.servers_closed_handlers_gone. Qed.
+Print Assumptions close_no_panic_handlers_vs_servers.
 
 Theorem closed_flag_monotone :
   forall (scr : nat -> list msg * bool) (K : nat) (s : sstate) e s',
